@@ -62,4 +62,5 @@ def main():
                                "%d random corpora (2..14 documents of length 1..9 over 1..8 tokens, seed %d) with a random positive example duplicated 1..4 times" % (n_rand, seed)}))
 
 
-main()
+from replay._guard import run_guarded  # noqa: E402
+run_guarded(main, 'the real training entry point raises')
